@@ -271,8 +271,9 @@ func selectCAPubKeyInfo(caInfo *document.ChipAuthenticationInfo, caAlgInfo *CaAl
 		if curPubKey.Protocol.Equal(caAlgInfo.targetOid) {
 			// no key-id specified, so good to use any matching public-key
 			// *OR* key-id specified, so need to find matching public-key
+			// NB the public-key may have no key-id (a nil big.Int must not be compared)
 			if (caInfo.KeyId == nil) ||
-				((caInfo.KeyId != nil) && (caInfo.KeyId.Cmp(curPubKey.KeyId) == 0)) {
+				((curPubKey.KeyId != nil) && (caInfo.KeyId.Cmp(curPubKey.KeyId) == 0)) {
 				return curPubKey, nil
 			}
 		}
